@@ -5,6 +5,7 @@ C19 line-protocol driver (see harness/internal/c19/c19.go for the grammar).
 -/
 import CaddyModel.C19.Model
 import CaddyModel.C19.ClientAuth
+import CaddyModel.C19.Caddyfile
 
 namespace CaddyModel.C19
 
@@ -27,14 +28,14 @@ def hexField (s : String) : Option Bytes :=
 /-- the `client_authentication` block a shape letter of the `pol` / `enf` cases stands for
     (harness `clientAuthJSON`) -/
 def shapeConf (c : Char) : Option CAConf :=
-  let z : CAConf := ⟨false, .none, .none, .none, false, .empty⟩
+  let z : CAConf := ⟨.none, .none, .none, .none, false, .empty⟩
   match c with
   | 'c' => some { z with mode := .request }
   | 'C' => some { z with mode := .require }
   | 'g' => some { z with mode := .verifyIfGiven }
   | 'k' => some { z with trustedCACerts := .good }
   | 'K' => some { z with trustedCACerts := .good, mode := .requireAndVerify }
-  | 'a' => some { z with caRaw := true }
+  | 'a' => some { z with caRaw := .good }
   | 'f' => some { z with pemFiles := .good }
   | 'l' => some { z with trustedLeaf := .good }
   | 'v' => some { z with verifiersRaw := true }
@@ -187,7 +188,7 @@ def parseCA (s : String) : Option (Option CAConf) :=
   match s.toList with
   | ['0', '0', '0', '0', '0', '0', '0'] => some none
   | ['1', a, b, c, d, e, m] => do
-    let ca ← parseBit a
+    let ca ← parseListed a
     let tca ← parseListed b
     let pem ← parseListed c
     let leaf ← parseListed d
@@ -205,7 +206,88 @@ def authNum : AuthType → String
   | .verifyClientCertIfGiven => "3"
   | .requireAndVerifyClientCert => "4"
 
+/-- host names of the `cf` cases (harness `cfNames`) -/
+def cfNames : List Bytes := [str "a.test", str "b.test", str "secret.test", str "k.test"]
+
+def cfProbeOther : Bytes := str "zz.test"
+
+def parseSubChar : Char → Option Sub
+  | 'r' => some (.mode .request)
+  | 'q' => some (.mode .require)
+  | 'g' => some (.mode .verifyIfGiven)
+  | 'R' => some (.mode .requireAndVerify)
+  | 'x' => some (.mode .other)
+  | 'k' => some (.trustedCACert true)
+  | 'K' => some (.trustedCACert false)
+  | 'f' => some (.trustedCACertFile true)
+  | 'F' => some (.trustedCACertFile false)
+  | 'l' => some (.trustedLeafCert true)
+  | 'M' => some (.trustedLeafCert false)
+  | 'j' => some (.trustedLeafCertFile true)
+  | 'J' => some (.trustedLeafCertFile false)
+  | 'p' => some (.trustPool true)
+  | 'P' => some (.trustPool false)
+  | 'v' => some .verifier
+  | _ => none
+
+/-- a site of a `cf` line: (name index, `none` = no tls directive | `some subs`) -/
+def parseCfSite (s : String) : Option (Nat × Option (List Sub)) :=
+  match s.splitOn "/" with
+  | [n, subs] => do
+    let i ← (match n.toList with | [c] => if '0' ≤ c ∧ c ≤ '3' then some (c.toNat - 48) else none | _ => none)
+    if subs == "~" then pure (i, none)
+    else if subs == "." then pure (i, some [])
+    else if subs == "" then none
+    else do
+      let l ← subs.toList.mapM parseSubChar
+      pure (i, some l)
+  | _ => none
+
+def distinctNat : List Nat → Bool
+  | [] => true
+  | x :: xs => !xs.contains x && distinctNat xs
+
+def parseStrictOpt : String → Option StrictOpt
+  | "n" => some .absent
+  | "b" => some .bare
+  | "t" => some .on
+  | "f" => some .insecureOff
+  | "x" => some .otherArg
+  | _ => none
+
+/-- the answer of a well-formed `cf` case -/
+def runCf (so : StrictOpt) (raw : List (Nat × Option (List Sub))) : String :=
+  -- Caddyfile → JSON: every client_auth block must parse, the option must be accepted
+  let parsed : Option (List Site) := raw.mapM fun (i, subs) =>
+    match cfNames[i]?, subs with
+    | none, _ => none
+    | some name, none => some (name, none)
+    | some name, some l => (parseClientAuth l).map fun conf => (name, some conf)
+  match parsed, strictOption so with
+  | some sites, some cfg =>
+    let pcs := adaptPolicies sites
+    -- JSON → provisioned server: every policy must provision
+    match pcs.mapM fun (_, conf) => provisionPolicyCA conf with
+    | none => "err:provision"
+    | some builts =>
+      let ps := pcs.map (·.1)
+      let strict := effectiveStrict cfg ps
+      let names := sites.map (·.1)
+      let probes := names ++ [cfProbeOther]
+      let auths := probes.map fun sni =>
+        match choose false ps ⟨sni, fun _ => false⟩ with
+        | .config k => (match builts[k]? with | some b => authNum b.bits.auth | none => "?")
+        | .dropped _ => "d"
+        | .noMatch => "-"
+      let served := probes.flatMap fun sni => names.map fun host => showServed (serve strict names (some sni) host)
+      "strict=" ++ bit strict ++ " a=" ++ "".intercalate auths ++ " r=" ++ ",".intercalate served
+  | _, _ => "err:adapt"
+
 def handle : List String → String
+  | ["cf", so, sites] =>
+    match parseStrictOpt so, (sites.splitOn ";").mapM parseCfSite with
+    | some o, some raw => if distinctNat (raw.map (·.1)) then runCf o raw else "bad-op"
+    | _, _ => "bad-op"
   | ["ca", fields] =>
     match parseCA fields with
     | none => "bad-op"
